@@ -3,7 +3,7 @@
    instantiation of the abstract cryptography (types of keys / ciphertexts included) that
    satisfies the hypotheses written in the statement. *)
 From Coq Require Import ZArith List Bool Znumtheory.
-From TD Require Import Lib.GoSem Lib.BigIntSem Gen.DhCheck Model.Exchange Proof.Exchange.
+From TD Require Import Lib.GoSem Lib.RunLib Lib.BigIntSem Gen.DhCheck Model.DhCheck Model.Exchange Model.ExchangeDemo Model.Alternation Proof.Exchange Proof.Alternation.
 Import ListNotations.
 Open Scope Z_scope.
 
@@ -15,7 +15,7 @@ Open Scope Z_scope.
        client's list, both sides use the same dc, pq <= 2^63 and DecomposePQ returns,
      - the server's DH group passes the client's CheckDH, the server found an a with g^a in the
        safe range, and the client's g^b is in the safe range (otherwise the client aborts
-       WITHOUT a key: probability about 2^-63, see C09_abort_is_safe),
+       WITHOUT a key: probability about 2^-63, see C09_abort_is_safe below),
    then both sides complete, with the same 256-byte key = big-endian(g^(ab) mod p), the same
    key id and the same salt = new_nonce[0..8) xor server_nonce[0..8). *)
 Theorem C09_agree :
@@ -85,13 +85,73 @@ Theorem C09_client_no_panic :
 Proof. exact client_no_panic. Qed.
 Print Assumptions C09_client_no_panic.
 
-(* Interleavings: the protocol is strictly alternating -- every step function above consumes
-   exactly the one message the other side produced last, so over a FIFO transport each side has
-   at most one enabled action and the run is the composition [honest_run]; chunking of reads and
-   writes below message level is the transport codec's concern (C16). *)
+(* "All read/write interleavings over the in-memory transport": client and server as sequential
+   programs of sends and receives over two unbounded FIFO queues (Model/Alternation.v; message
+   contents abstracted -- they are what honest_run composes).  For EVERY schedule, in every
+   reachable state at most one action of either side is enabled, so any two schedules of equal
+   length coincide and the only complete one is the strict alternation c1 s2 c3 s5 c6 s8 c8 that
+   [honest_run] composes.  (Chunking below message level belongs to the transport codecs: C16.) *)
+Theorem C09_one_enabled_action :
+  forall tr s, arun ainit tr = Some s -> (length (enabled_events s) <= 1)%nat.
+Proof. exact at_most_one_enabled. Qed.
+Print Assumptions C09_one_enabled_action.
+Theorem C09_schedule_unique :
+  forall tr1 tr2 s1 s2, length tr1 = length tr2 -> arun ainit tr1 = Some s1 -> arun ainit tr2 = Some s2 -> tr1 = tr2.
+Proof. exact schedule_unique. Qed.
+Print Assumptions C09_schedule_unique.
+Theorem C09_alternating_schedule_completes :
+  exists s, arun ainit the_schedule = Some s /\ cpc s = prog_len /\ spc s = prog_len /\ enabled_events s = [].
+Proof. exact the_schedule_runs. Qed.
+Print Assumptions C09_alternating_schedule_completes.
 
-(* non-vacuity: the hypotheses are satisfiable (identity "encryption", real exponentiation) *)
+(* If g^b falls outside the safety range the client aborts at CheckDHParams (error 43 / 45):
+   no key on the client side, and the server never produces its result. *)
+Theorem C09_abort_is_safe :
+  forall (pubkey privkey cipher1 cipher2 cipher3 : Type)
+         (pub_of : privkey -> pubkey) (fp : pubkey -> Z)
+         (rsa_enc : pubkey -> pq_inner -> cipher1) (rsa_dec : privkey -> cipher1 -> option pq_inner)
+         (ans_enc : nonce -> nonce -> sdh_inner -> cipher2) (ans_dec : nonce -> nonce -> cipher2 -> option sdh_inner)
+         (cin_enc : nonce -> nonce -> cdh_inner -> cipher3) (cin_dec : nonce -> nonce -> cipher3 -> option cdh_inner)
+         (powmod : Z -> Z -> Z -> Z) (prime : Z -> bool) (factor : Z -> option (Z * Z))
+         (nonce_hash1 : nonce -> list Z -> list Z) (key_id : list Z -> list Z),
+    (forall sk x, rsa_dec sk (rsa_enc (pub_of sk) x) = Some x) ->
+    (forall nn sn x, ans_dec nn sn (ans_enc nn sn x) = Some x) ->
+    (forall g e p, powmod g e p = g ^ e mod p) ->
+    forall (ccf : cconf pubkey) (cr : crand) (scf : sconf privkey) (sr : srand) a ga,
+      let pk := pub_of (sc_key privkey scf) in
+      let p := sr_p sr in
+      In pk (cc_keys pubkey ccf) ->
+      (forall k, In k (cc_keys pubkey ccf) -> fp k = fp pk -> k = pk) ->
+      sr_pq sr <= 2 ^ 63 -> factor (sr_pq sr) <> None ->
+      cc_dc pubkey ccf = sc_dc privkey scf ->
+      0 <= p -> check_dh prime server_g p = 0 ->
+      pick_a powmod p (sr_as sr) = Some (a, ga) ->
+      ga_ok p (server_g ^ cr_b cr mod p) = false ->
+      exists c, (c = 43 \/ c = 45) /\
+        honest_run pubkey privkey cipher1 cipher2 cipher3 pub_of fp rsa_enc rsa_dec ans_enc ans_dec
+                   cin_enc cin_dec powmod prime factor nonce_hash1 key_id ccf cr scf sr = ClientErr (EDHParams c).
+Proof. exact honest_abort. Qed.
+Print Assumptions C09_abort_is_safe.
+
+(* non-vacuity: the JOINT hypothesis set of C09_agree is satisfiable (Model/ExchangeDemo.v:
+   identity encryption, real square-and-multiply exponentiation, p = 2^2047 + 3003, a = 1500,
+   b = 1700), and in that instance the run completes with equal keys, ids and salts. *)
 Example C09_hyps_satisfiable :
-  exists (rsa_enc : Z -> pq_inner -> pq_inner) (rsa_dec : Z -> pq_inner -> option pq_inner),
-    forall sk x, rsa_dec sk (rsa_enc (id sk) x) = Some x.
-Proof. exists (fun _ x => x), (fun _ x => Some x). reflexivity. Qed.
+  (forall sk x, d_rsa_dec sk (d_rsa_enc sk x) = Some x) /\
+  (forall nn sn x, d_ans_dec nn sn (d_ans_enc nn sn x) = Some x) /\
+  (forall nn sn x, d_cin_dec nn sn (d_cin_enc nn sn x) = Some x) /\
+  In 7 (cc_keys Z d_ccf) /\ sr_pq d_sr <= 2 ^ 63 /\ d_factor (sr_pq d_sr) <> None /\
+  cc_dc Z d_ccf = sc_dc Z d_scf /\ 0 <= d_p /\
+  check_dh d_prime server_g d_p = 0 /\
+  pick_a modpow d_p (sr_as d_sr) = Some (1500, d_ga) /\
+  ga_ok d_p (modpow server_g (cr_b d_cr) d_p) = true.
+Proof.
+  repeat split; try reflexivity; try discriminate; try (cbn; tauto); try (vm_compute; reflexivity).
+Qed.
+Example C09_instance_completes :
+  match d_honest with
+  | Done c s => zlist_eqb (kr_key c) (kr_key s) && zlist_eqb (kr_id c) (kr_id s) && (kr_salt c =? kr_salt s) = true
+  | _ => False
+  end.
+Proof. vm_compute. reflexivity. Qed.
+(* modpow is exponentiation: Proof/DhCheck.v modpow_spec, so [d_*] instantiates pow_ok as well *)
